@@ -5,6 +5,7 @@ import (
 	"fmt"
 	"os"
 	"testing"
+	"time"
 
 	"verif/harness/model"
 	"verif/harness/run"
@@ -63,6 +64,24 @@ func replayOnce(r run.Replay) string {
 			}
 		}
 		return ""
+	case "terminates":
+		done := make(chan string, 1)
+		go func() {
+			for _, c := range r.Calls {
+				o := doCall(c)
+				if o.Panic != "" {
+					done <- "panic: " + o.Panic
+					return
+				}
+			}
+			done <- ""
+		}()
+		select {
+		case msg := <-done:
+			return msg
+		case <-time.After(run.HangLimit):
+			return "library call did not return within " + run.HangLimit.String()
+		}
 	case "nopanic":
 		for _, c := range r.Calls {
 			o := doCall(c)
